@@ -500,6 +500,7 @@ fn process_tags(
     let remain = &mut Vec::new();
 
     while !tags.is_empty() && remain.len() != tags.len() {
+        let resolved_before = context.resolved_count();
         for (idx, t) in &mut tags.iter_mut() {
             let idx = idx.clone();
             let el = if let Some(el) = t.get_element() {
@@ -548,7 +549,12 @@ fn process_tags(
             }
         }
         if tags.len() == remain.len() {
-            return Err(SvgdxError::MultiError(element_errors));
+            // No tag completed in this pass. Elements newly resolved inside a container
+            // which failed as a whole still count as progress - other tags may have been
+            // waiting for them - but only a bounded number of times.
+            if context.resolved_count() == resolved_before || !context.allow_idle_pass() {
+                return Err(SvgdxError::MultiError(element_errors));
+            }
         }
 
         mem::swap(tags, remain);
